@@ -119,11 +119,23 @@ def handle (hdr : List String) (body : List (List String)) : List String :=
               let full := pathUp (allBlks.length + 1) c.block.id []
               { stack := if c.step == .undo then full.dropLast else full, final := some c.lib }
             | _, _ => { stack := [], final := some ⟨parent f.ref.id, 0⟩ }
-          let evsAbove := impl.filter (fun e => e.ref.num ≥ f.ref.num || cfg.cursor.isSome)
           -- with the default filter the consumer sees New/Undo/new+irreversible only: finality is not announced,
           -- so a new+irreversible block is pushed like a New one
-          let asNew := evsAbove.map (fun e => if e.step == .newIrreversible then { e with step := .new } else e)
-          match CState.run parent c0 asNew with
+          let asNew := impl.map (fun e => if e.step == .newIrreversible then { e with step := .new } else e)
+          -- "events that a later live reorganisation produces for blocks below the first delivered block aside": a
+          -- stream started by number rests on blocks it never delivered; a live reorganisation reaching below the first
+          -- delivered block undoes such (virtual) blocks — an Undo on the empty stack for a block below the first one —
+          -- after which the consumer rests on whatever the next New extends
+          let firstNum := f.ref.num
+          let byNumber := cfg.cursor.isNone
+          let step (acc : Option CState) (e : Obs) : Option CState :=
+            match acc with
+            | none => none
+            | some c =>
+              if byNumber && e.step == .undo && c.stack.isEmpty && e.ref.num < firstNum then some { c with final := none }
+              else if byNumber && e.step == .new && c.stack.isEmpty && c.final.isNone then some { c with stack := [e.ref] }
+              else CState.apply parent c e
+          match asNew.foldl step (some c0) with
           | none => ["monitor C07 FAIL handoff-sequence-violates-the-undo-new-discipline"]
           | some r =>
             -- every canonical block from the start point up to the stop block exactly once, in order
